@@ -12,8 +12,9 @@ SPEC = {
                      "structural obligation: tools/translators/time_sites.py lists every read of N2kMillis()/N2kMillis64()/millis() and every "
                      "raw comparison or subtraction on a time-typed field in src/ and requires the list to equal the committed, reviewed "
                      "whitelist tools/translators/time_sites_whitelist.json (a new raw comparison is a broken obligation)",
-                     "the machines covered by the shift theorems are those modelled so far (send path, Open(), address-claim timer, heartbeat); "
-                     "slot ageing, ISO-TP, pending information and the device list are other properties' models"],
+                     "the machines covered by the shift theorems are the send path, Open(), the address-claim timer, the heartbeat "
+                     "(C13_shift_invariance_partial) and the device list's request pacing of Model/DeviceList.lean (C13_shift_invariance_devlist, "
+                     "unconditional); slot ageing, ISO-TP, pending information and the rest of tN2kDeviceList::HandleMsg are other properties' models"],
     'assumptions': ["32-bit build: the exact commutation excludes the instants at which a FromNow() lands on the scheduler's all-ones "
                     "'disabled' value (documented 1 ms slack, characterised exactly by C13_primitives_elapsed_only); the harness compares such "
                     "runs with a 1 ms tolerance under dense polling; a pair in which a script operation (configuration, forced heartbeat, claim, "
@@ -30,12 +31,12 @@ MANIFEST = {
             "interval changes, claims, back-pressure), commute with a shift of the clock origin by ANY k for both timer builds (up to "
             "that sentinel millisecond / 64-bit overflow), lifted by induction to whole runs: same log, same frames at the driver and "
             "in the queue, shifted final state. The roll counter behind N2kMillis64() on 32-bit builds is exact up to a constant when "
-            "sampled at least once per 2^32 ms. Structural obligation: every clock read / raw time comparison in src/ is on a reviewed "
+            "sampled at least once per 2^32 ms. The device list's request pacing (ReadyForRequest..., Set...Requested, the three request loops, HandleOther) commutes with the shift for EVERY k and every state without side conditions (code as repaired in f104fb3). Structural obligation: every clock read / raw time comparison in src/ is on a reviewed "
             "whitelist. Metamorphic oracle: each scenario script (open, CAN-open failure, claims, heartbeats with jitter and long gaps, "
             "interval changes, back-pressure, dense 1 ms polling) is run on the real node from origins 0, 2^31+-k, 2^32-k and the "
             "sentinel instants, both timer builds, and the relative-time outputs are compared. Partial: covers the machines modelled so "
-            "far; the device list's absolute stamp 0 is a recorded open finding, replayed every run.",
+            "far. The device-list probe (two silent foreign devices, product information / configuration information / PGN list requests) is run from origins 1000, 2^31+-k, 2^32-k on both builds and the request traces must be identical.",
     'design_ref': 'DESIGN.md section 4, C13',
     'note': "partial: slot ageing, ISO-TP, pending-information timers and the device list are tied to the primitives only through the "
-            "structural whitelist, their step functions belong to C02/C08/C10/C18. Known open finding C13:devlist-zero-sentinel.",
+            "structural whitelist, their step functions belong to C02/C08/C10/C18. C13:devlist-zero-sentinel is fixed (f104fb3); its revert is seeded/C13_fixrev_1.",
 }
